@@ -173,6 +173,8 @@ def stepHttp (args : List String) (impl : String) : DrvOut :=
           let b64 := if ok then some dec else none
           let model := fmtCreds (credentials hdrs b64)
           let what := "Authorization header did not yield exactly its credentials"
+          -- which of a Basic and a Bearer value wins is modelled (diff) but not demanded by the property
+          let noBasic := hdrs.all fun h => !hasBasicPrefix h
           match kind with
           | "none" => { model := model }
           | "basic" =>
@@ -185,11 +187,11 @@ def stepHttp (args : List String) (impl : String) : DrvOut :=
             let valid := (hdrs.take pos).all notBearer && hdrs[pos]? == some (kBearer ++ (a ++ 58 :: b))
             if !valid then { model := "bad-op intent" } else
             { model := model,
-              spec := verdict (noByte 58 a && noByte 58 b) (fmtCreds { user := a, pass := b }) impl what }
+              spec := verdict (noBasic && noByte 58 a && noByte 58 b) (fmtCreds { user := a, pass := b }) impl what }
           | "btok" =>
             let valid := (hdrs.take pos).all notBearer && hdrs[pos]? == some (kBearer ++ a)
             if !valid then { model := "bad-op intent" } else
-            { model := model, spec := verdict (countB 58 a != 1) (fmtCreds { token := a }) impl what }
+            { model := model, spec := verdict (noBasic && countB 58 a != 1) (fmtCreds { token := a }) impl what }
           | _ => { model := "bad-op" }
         | _, _ => { model := "bad-op" }
       | _, _ => { model := "bad-op" }
